@@ -105,6 +105,11 @@ type Path struct {
 	fdivInfo  map[*Term][2]*Term // abstract float quotient -> (x, y) wide integer terms (fpcut.go)
 	sigs      map[string][2]string // ideal signatures made in this run: sig -> (public key hex, signed hash hex)
 	keyCounter int
+	blsIDNum  map[string]uint64 // long bls.ID hex strings interned (dkgx.go)
+	blsIDStr  map[uint64]string
+	dkgGroups int
+	dkgOf     map[*value]int      // DKG object -> ideal group
+	dkgShares map[string]dkgShare // share signature -> (group, party, message)
 	fpCuts    int
 	regexps   map[*value]*regexp.Regexp
 	profile   map[*ssa.Function]int
